@@ -1217,13 +1217,16 @@ class HistogramLayer(Family):
         return request, keys, outs, fresh, resets
 
     def run_fine(self, case):
+        from echo import delay_callback
         layer_kind, _, mag, step, win, field, log = case
         M = MAGS[mag]
         s0 = step_size(M, step)
         W = 16 * s0 if win == "zoom" else (abs(M) / 4 if M != 0 else 1.0)
         lo0, hi0 = M, M + W
         los = [stepped(lo0, step, k) if field in ("min", "both") else lo0 for k in SEQ_K]
-        his = [stepped(hi0, step, k) if field in ("max", "both", "view") else hi0 for k in SEQ_K]
+        his = [stepped(hi0, step, k) if field in ("max", "view") else hi0 for k in SEQ_K]
+        if field == "both":      # a pan: both limits shifted by the same amount, set together (the width stays)
+            his = [hi0 + (l - lo0) if hi0 + (l - lo0) != hi0 or l == lo0 else stepped(hi0, step, k) for l, k in zip(los, SEQ_K)]
         # data: a point on every limit that is used, between any two neighbouring ones, inside and outside
         marks = sorted(set(los + his))
         pts = set(marks)
@@ -1243,11 +1246,13 @@ class HistogramLayer(Family):
             if field == "view":
                 vs.x_min, vs.x_max = los[k], his[k]
                 vs.update_bins_to_view()
+            elif field == "both":
+                with delay_callback(vs, "hist_x_min", "hist_x_max"):
+                    vs.hist_x_min, vs.hist_x_max = los[k], his[k]
+            elif field == "min":
+                vs.hist_x_min = los[k]
             else:
-                if field in ("min", "both"):
-                    vs.hist_x_min = los[k]
-                if field in ("max", "both"):
-                    vs.hist_x_max = his[k]
+                vs.hist_x_max = his[k]
             request()
         self._last = (canon_ids(keys, resets), fresh)
         return outs
